@@ -48,6 +48,21 @@ C04_ASSUME = ["model family: harness c04Model (enum with base, record with optio
               "encoding/json modelled structurally (json_model.go) calling the interpreted MarshalJSON methods; byte-for-byte validated by native replay on every sampled path"]
 
 CC = "cc_kernels"
+PY = "py_kernels"
+
+C14_PART = (G, "gosym_part", dict(name="c14_type_plans", entry="internal/zzverif.C14Type", args_quick=(1, 1), args_thorough=(2, 1),
+                                  extra_thorough=("-max-paths", "400000"),
+                                  required_sites=("cpp-write-plan", "cpp-read-plan", "python-plan", "matlab-plan"),
+                                  desc="one symbolic type (args: nesting depth, number of leaves ranging over all 18 primitives) through cpp/binary.typeRwFunction "
+                                       "(write+read), python/binary.typeSerializer, matlab/binary.typeSerializer; each emitted expression parsed and mapped "
+                                       "through the backend head table must equal Plan(T); vector lengths / array dimensions are symbolic 64-bit values",
+                                  assumptions=["head tables in harness/go/internal/zzverif/zz_plan.go give the meaning of each runtime entry point",
+                                               "type shapes limited to the generator in zz_gen.go (depth bound; union = 2 cases (+null); records 1-2 fields; one generic parameter)"]))
+
+C02_UNION3_PART = (G, "gosym_part", dict(name="c02_union_tagging_3", entry="internal/zzverif.C02Union", args_quick=(3, 0, 1), args_thorough=(3, 1, 1), key_fn=None,
+                                         required_sites=("cpp-python-agree", "python-untagged-only-if-unambiguous", "python-tagged-only-if-ambiguous"),
+                                         desc="C++ and Python NDJSON generators take the same tag-or-not decision on 3-case unions over a reduced case vocabulary",
+                                         assumptions=["JSON kind table transcribed from docs/reference/ndjson.md (harness specKinds)"]))
 
 PARTS = {
     "C13": [
@@ -61,15 +76,25 @@ PARTS = {
     ],
     "C01": [
         (CC, "c01_cc_kernels", dict()),
+        (PY, "c01_py_kernels", dict()),
+        C14_PART,
+    ],
+    "C03": [
+        (PY, "c03_py_capacity", dict()),
+        C14_PART,
+        C02_UNION3_PART,
     ],
     "C16": [
         (CC, "c16_cc_truncation", dict()),
+        (PY, "c16_py_truncation", dict()),
     ],
     "C17": [
         (CC, "c17_cc_blocks", dict()),
+        (PY, "c17_py_batching", dict()),
     ],
     "C15": [
         (CC, "c15_cc_header", dict()),
+        (PY, "c15_py_header", dict()),
     ],
     "C04": [
         (G, "gosym_part", dict(name="c04_neutral", entry="internal/zzverif.C04Neutral", args_quick=(1,), args_thorough=(0,),
@@ -91,6 +116,7 @@ PARTS = {
                                     "outputs may be disabled, output dirs empty or pre-populated: any error => non-nil error and no write under the output dirs")),
     ],
     "C02": [
+        (PY, "c02_py_converters", dict()),
         (G, "gosym_part", dict(name="c02_union_tagging", entry="internal/zzverif.C02Union", args_quick=(2, 0, 0), args_thorough=(3, 1, 0),
                                extra_thorough=("-max-paths", "400000"), key_fn=c02_key,
                                required_sites=("cpp-python-agree", "python-untagged-only-if-unambiguous", "python-tagged-only-if-ambiguous",
@@ -162,6 +188,13 @@ NOTES = ("Every claim is bounded: 'holds' means unsat within the stated bound. E
 NOT_APPLICABLE = {}
 
 CLAIMS = {
+    "C03": dict(engine="gosym+pysym(+llsym via C01)",
+                text="Portability is decomposed: (1) every backend's emitted serializer denotes the same wire plan (C14 part, gosym); (2) the C++ and Python NDJSON generators take "
+                     "the same tag-or-not decision for unions (gosym); (3) the Python writer's unchecked byte stores are always inside the buffer from any valid state (pysym, one "
+                     "obligation per write_byte_no_check call site); (4) C++ and Python kernels each produce exactly the reference codec's bytes (C01's llsym and pysym parts), hence "
+                     "byte-identical streams.",
+                note="No generated C++ program can be compiled or run here, so cross-language interchange is shown by composition of plan agreement and kernel conformance, not "
+                     "by executing both languages against each other; MATLAB runtime (.m files) is outside."),
     "C13": dict(text="Bounded symbolic execution (gosym) of the real validation pipeline (incl. topological sort, generic instantiation) on one symbolic model listed in 8 "
                      "definition orders x 3 file layouts: accept/reject, schema text, per-field wire plan and emitted Python serializer expressions are identical, and definitions "
                      "come out dependencies-first.",
@@ -170,7 +203,9 @@ CLAIMS = {
     "C01": dict(engine="llsym+pysym+gosym",
                 text="Bounded symbolic execution of the real runtime kernels: (llsym) clang-14 IR of coded_stream.h executed symbolically from an arbitrary valid stream state "
                      "with symbolic values: emitted bytes equal the reference wire codec (docs/reference/binary.md), reading them back yields the value and consumes exactly those bytes, "
-                     "class invariant preserved, no out-of-object access; buffer sizes 8/12 (quick) up to 32 (thorough). Composition (which kernel is used for which type) is C14.",
+                     "class invariant preserved, no out-of-object access; buffer sizes 8/12 (quick) up to 32 (thorough). (pysym) the unmodified _binary.py run on symbolic proxies: "
+                     "every stream primitive and every serializer class (ints, size, bool, floats, complex, string, date, optional, union, vector, fixed vector, map, stream, enum, record) "
+                     "writes the reference bytes from an arbitrary buffer offset and reads them back. (gosym) C14 part: which kernel each backend uses for each type.",
                 note="Generated C++ cannot be compiled in this sandbox (no xtensor/date/nlohmann/HDF5), so C++ is covered at kernel level (llsym) + emitter level (C14 gosym) only; "
                      "production buffer size 65536 is covered only through the size-independent inductive step; istream::read/ostream::write follow the libstdc++ contract."),
     "C16": dict(engine="llsym+pysym",
